@@ -114,93 +114,93 @@ require (
 )
 
 replace (
-	go.opentelemetry.io/collector => /tmp/wt-C20
-	go.opentelemetry.io/collector/client => /tmp/wt-C20/client
-	go.opentelemetry.io/collector/cmd/builder => /tmp/wt-C20/cmd/builder
-	go.opentelemetry.io/collector/cmd/mdatagen => /tmp/wt-C20/cmd/mdatagen
-	go.opentelemetry.io/collector/cmd/otelcorecol => /tmp/wt-C20/cmd/otelcorecol
-	go.opentelemetry.io/collector/component => /tmp/wt-C20/component
-	go.opentelemetry.io/collector/component/componentstatus => /tmp/wt-C20/component/componentstatus
-	go.opentelemetry.io/collector/component/componenttest => /tmp/wt-C20/component/componenttest
-	go.opentelemetry.io/collector/config/configauth => /tmp/wt-C20/config/configauth
-	go.opentelemetry.io/collector/config/configcompression => /tmp/wt-C20/config/configcompression
-	go.opentelemetry.io/collector/config/configgrpc => /tmp/wt-C20/config/configgrpc
-	go.opentelemetry.io/collector/config/confighttp => /tmp/wt-C20/config/confighttp
-	go.opentelemetry.io/collector/config/confighttp/xconfighttp => /tmp/wt-C20/config/confighttp/xconfighttp
-	go.opentelemetry.io/collector/config/configmiddleware => /tmp/wt-C20/config/configmiddleware
-	go.opentelemetry.io/collector/config/confignet => /tmp/wt-C20/config/confignet
-	go.opentelemetry.io/collector/config/configopaque => /tmp/wt-C20/config/configopaque
-	go.opentelemetry.io/collector/config/configretry => /tmp/wt-C20/config/configretry
-	go.opentelemetry.io/collector/config/configtelemetry => /tmp/wt-C20/config/configtelemetry
-	go.opentelemetry.io/collector/config/configtls => /tmp/wt-C20/config/configtls
-	go.opentelemetry.io/collector/confmap => /tmp/wt-C20/confmap
-	go.opentelemetry.io/collector/confmap/internal/e2e => /tmp/wt-C20/confmap/internal/e2e
-	go.opentelemetry.io/collector/confmap/provider/envprovider => /tmp/wt-C20/confmap/provider/envprovider
-	go.opentelemetry.io/collector/confmap/provider/fileprovider => /tmp/wt-C20/confmap/provider/fileprovider
-	go.opentelemetry.io/collector/confmap/provider/httpprovider => /tmp/wt-C20/confmap/provider/httpprovider
-	go.opentelemetry.io/collector/confmap/provider/httpsprovider => /tmp/wt-C20/confmap/provider/httpsprovider
-	go.opentelemetry.io/collector/confmap/provider/yamlprovider => /tmp/wt-C20/confmap/provider/yamlprovider
-	go.opentelemetry.io/collector/confmap/xconfmap => /tmp/wt-C20/confmap/xconfmap
-	go.opentelemetry.io/collector/connector => /tmp/wt-C20/connector
-	go.opentelemetry.io/collector/connector/connectortest => /tmp/wt-C20/connector/connectortest
-	go.opentelemetry.io/collector/connector/forwardconnector => /tmp/wt-C20/connector/forwardconnector
-	go.opentelemetry.io/collector/connector/xconnector => /tmp/wt-C20/connector/xconnector
-	go.opentelemetry.io/collector/consumer => /tmp/wt-C20/consumer
-	go.opentelemetry.io/collector/consumer/consumererror => /tmp/wt-C20/consumer/consumererror
-	go.opentelemetry.io/collector/consumer/consumererror/xconsumererror => /tmp/wt-C20/consumer/consumererror/xconsumererror
-	go.opentelemetry.io/collector/consumer/consumertest => /tmp/wt-C20/consumer/consumertest
-	go.opentelemetry.io/collector/consumer/xconsumer => /tmp/wt-C20/consumer/xconsumer
-	go.opentelemetry.io/collector/exporter => /tmp/wt-C20/exporter
-	go.opentelemetry.io/collector/exporter/debugexporter => /tmp/wt-C20/exporter/debugexporter
-	go.opentelemetry.io/collector/exporter/exporterhelper/xexporterhelper => /tmp/wt-C20/exporter/exporterhelper/xexporterhelper
-	go.opentelemetry.io/collector/exporter/exportertest => /tmp/wt-C20/exporter/exportertest
-	go.opentelemetry.io/collector/exporter/nopexporter => /tmp/wt-C20/exporter/nopexporter
-	go.opentelemetry.io/collector/exporter/otlpexporter => /tmp/wt-C20/exporter/otlpexporter
-	go.opentelemetry.io/collector/exporter/otlphttpexporter => /tmp/wt-C20/exporter/otlphttpexporter
-	go.opentelemetry.io/collector/exporter/xexporter => /tmp/wt-C20/exporter/xexporter
-	go.opentelemetry.io/collector/extension => /tmp/wt-C20/extension
-	go.opentelemetry.io/collector/extension/extensionauth => /tmp/wt-C20/extension/extensionauth
-	go.opentelemetry.io/collector/extension/extensionauth/extensionauthtest => /tmp/wt-C20/extension/extensionauth/extensionauthtest
-	go.opentelemetry.io/collector/extension/extensioncapabilities => /tmp/wt-C20/extension/extensioncapabilities
-	go.opentelemetry.io/collector/extension/extensionmiddleware => /tmp/wt-C20/extension/extensionmiddleware
-	go.opentelemetry.io/collector/extension/extensionmiddleware/extensionmiddlewaretest => /tmp/wt-C20/extension/extensionmiddleware/extensionmiddlewaretest
-	go.opentelemetry.io/collector/extension/extensiontest => /tmp/wt-C20/extension/extensiontest
-	go.opentelemetry.io/collector/extension/memorylimiterextension => /tmp/wt-C20/extension/memorylimiterextension
-	go.opentelemetry.io/collector/extension/xextension => /tmp/wt-C20/extension/xextension
-	go.opentelemetry.io/collector/extension/zpagesextension => /tmp/wt-C20/extension/zpagesextension
-	go.opentelemetry.io/collector/featuregate => /tmp/wt-C20/featuregate
-	go.opentelemetry.io/collector/filter => /tmp/wt-C20/filter
-	go.opentelemetry.io/collector/internal/e2e => /tmp/wt-C20/internal/e2e
-	go.opentelemetry.io/collector/internal/fanoutconsumer => /tmp/wt-C20/internal/fanoutconsumer
-	go.opentelemetry.io/collector/internal/memorylimiter => /tmp/wt-C20/internal/memorylimiter
-	go.opentelemetry.io/collector/internal/sharedcomponent => /tmp/wt-C20/internal/sharedcomponent
-	go.opentelemetry.io/collector/internal/telemetry => /tmp/wt-C20/internal/telemetry
-	go.opentelemetry.io/collector/internal/tools => /tmp/wt-C20/internal/tools
-	go.opentelemetry.io/collector/otelcol => /tmp/wt-C20/otelcol
-	go.opentelemetry.io/collector/otelcol/otelcoltest => /tmp/wt-C20/otelcol/otelcoltest
-	go.opentelemetry.io/collector/pdata => /tmp/wt-C20/pdata
-	go.opentelemetry.io/collector/pdata/pprofile => /tmp/wt-C20/pdata/pprofile
-	go.opentelemetry.io/collector/pipeline => /tmp/wt-C20/pipeline
-	go.opentelemetry.io/collector/pipeline/xpipeline => /tmp/wt-C20/pipeline/xpipeline
-	go.opentelemetry.io/collector/processor => /tmp/wt-C20/processor
-	go.opentelemetry.io/collector/processor/batchprocessor => /tmp/wt-C20/processor/batchprocessor
-	go.opentelemetry.io/collector/processor/memorylimiterprocessor => /tmp/wt-C20/processor/memorylimiterprocessor
-	go.opentelemetry.io/collector/processor/processorhelper => /tmp/wt-C20/processor/processorhelper
-	go.opentelemetry.io/collector/processor/processorhelper/xprocessorhelper => /tmp/wt-C20/processor/processorhelper/xprocessorhelper
-	go.opentelemetry.io/collector/processor/processortest => /tmp/wt-C20/processor/processortest
-	go.opentelemetry.io/collector/processor/xprocessor => /tmp/wt-C20/processor/xprocessor
-	go.opentelemetry.io/collector/receiver => /tmp/wt-C20/receiver
-	go.opentelemetry.io/collector/receiver/nopreceiver => /tmp/wt-C20/receiver/nopreceiver
-	go.opentelemetry.io/collector/receiver/otlpreceiver => /tmp/wt-C20/receiver/otlpreceiver
-	go.opentelemetry.io/collector/receiver/receiverhelper => /tmp/wt-C20/receiver/receiverhelper
-	go.opentelemetry.io/collector/receiver/receivertest => /tmp/wt-C20/receiver/receivertest
-	go.opentelemetry.io/collector/receiver/xreceiver => /tmp/wt-C20/receiver/xreceiver
-	go.opentelemetry.io/collector/scraper => /tmp/wt-C20/scraper
-	go.opentelemetry.io/collector/scraper/scraperhelper => /tmp/wt-C20/scraper/scraperhelper
-	go.opentelemetry.io/collector/scraper/scrapertest => /tmp/wt-C20/scraper/scrapertest
-	go.opentelemetry.io/collector/semconv => /tmp/wt-C20/semconv
-	go.opentelemetry.io/collector/service => /tmp/wt-C20/service
-	go.opentelemetry.io/collector/service/hostcapabilities => /tmp/wt-C20/service/hostcapabilities
+	go.opentelemetry.io/collector => /repo
+	go.opentelemetry.io/collector/client => /repo/client
+	go.opentelemetry.io/collector/cmd/builder => /repo/cmd/builder
+	go.opentelemetry.io/collector/cmd/mdatagen => /repo/cmd/mdatagen
+	go.opentelemetry.io/collector/cmd/otelcorecol => /repo/cmd/otelcorecol
+	go.opentelemetry.io/collector/component => /repo/component
+	go.opentelemetry.io/collector/component/componentstatus => /repo/component/componentstatus
+	go.opentelemetry.io/collector/component/componenttest => /repo/component/componenttest
+	go.opentelemetry.io/collector/config/configauth => /repo/config/configauth
+	go.opentelemetry.io/collector/config/configcompression => /repo/config/configcompression
+	go.opentelemetry.io/collector/config/configgrpc => /repo/config/configgrpc
+	go.opentelemetry.io/collector/config/confighttp => /repo/config/confighttp
+	go.opentelemetry.io/collector/config/confighttp/xconfighttp => /repo/config/confighttp/xconfighttp
+	go.opentelemetry.io/collector/config/configmiddleware => /repo/config/configmiddleware
+	go.opentelemetry.io/collector/config/confignet => /repo/config/confignet
+	go.opentelemetry.io/collector/config/configopaque => /repo/config/configopaque
+	go.opentelemetry.io/collector/config/configretry => /repo/config/configretry
+	go.opentelemetry.io/collector/config/configtelemetry => /repo/config/configtelemetry
+	go.opentelemetry.io/collector/config/configtls => /repo/config/configtls
+	go.opentelemetry.io/collector/confmap => /repo/confmap
+	go.opentelemetry.io/collector/confmap/internal/e2e => /repo/confmap/internal/e2e
+	go.opentelemetry.io/collector/confmap/provider/envprovider => /repo/confmap/provider/envprovider
+	go.opentelemetry.io/collector/confmap/provider/fileprovider => /repo/confmap/provider/fileprovider
+	go.opentelemetry.io/collector/confmap/provider/httpprovider => /repo/confmap/provider/httpprovider
+	go.opentelemetry.io/collector/confmap/provider/httpsprovider => /repo/confmap/provider/httpsprovider
+	go.opentelemetry.io/collector/confmap/provider/yamlprovider => /repo/confmap/provider/yamlprovider
+	go.opentelemetry.io/collector/confmap/xconfmap => /repo/confmap/xconfmap
+	go.opentelemetry.io/collector/connector => /repo/connector
+	go.opentelemetry.io/collector/connector/connectortest => /repo/connector/connectortest
+	go.opentelemetry.io/collector/connector/forwardconnector => /repo/connector/forwardconnector
+	go.opentelemetry.io/collector/connector/xconnector => /repo/connector/xconnector
+	go.opentelemetry.io/collector/consumer => /repo/consumer
+	go.opentelemetry.io/collector/consumer/consumererror => /repo/consumer/consumererror
+	go.opentelemetry.io/collector/consumer/consumererror/xconsumererror => /repo/consumer/consumererror/xconsumererror
+	go.opentelemetry.io/collector/consumer/consumertest => /repo/consumer/consumertest
+	go.opentelemetry.io/collector/consumer/xconsumer => /repo/consumer/xconsumer
+	go.opentelemetry.io/collector/exporter => /repo/exporter
+	go.opentelemetry.io/collector/exporter/debugexporter => /repo/exporter/debugexporter
+	go.opentelemetry.io/collector/exporter/exporterhelper/xexporterhelper => /repo/exporter/exporterhelper/xexporterhelper
+	go.opentelemetry.io/collector/exporter/exportertest => /repo/exporter/exportertest
+	go.opentelemetry.io/collector/exporter/nopexporter => /repo/exporter/nopexporter
+	go.opentelemetry.io/collector/exporter/otlpexporter => /repo/exporter/otlpexporter
+	go.opentelemetry.io/collector/exporter/otlphttpexporter => /repo/exporter/otlphttpexporter
+	go.opentelemetry.io/collector/exporter/xexporter => /repo/exporter/xexporter
+	go.opentelemetry.io/collector/extension => /repo/extension
+	go.opentelemetry.io/collector/extension/extensionauth => /repo/extension/extensionauth
+	go.opentelemetry.io/collector/extension/extensionauth/extensionauthtest => /repo/extension/extensionauth/extensionauthtest
+	go.opentelemetry.io/collector/extension/extensioncapabilities => /repo/extension/extensioncapabilities
+	go.opentelemetry.io/collector/extension/extensionmiddleware => /repo/extension/extensionmiddleware
+	go.opentelemetry.io/collector/extension/extensionmiddleware/extensionmiddlewaretest => /repo/extension/extensionmiddleware/extensionmiddlewaretest
+	go.opentelemetry.io/collector/extension/extensiontest => /repo/extension/extensiontest
+	go.opentelemetry.io/collector/extension/memorylimiterextension => /repo/extension/memorylimiterextension
+	go.opentelemetry.io/collector/extension/xextension => /repo/extension/xextension
+	go.opentelemetry.io/collector/extension/zpagesextension => /repo/extension/zpagesextension
+	go.opentelemetry.io/collector/featuregate => /repo/featuregate
+	go.opentelemetry.io/collector/filter => /repo/filter
+	go.opentelemetry.io/collector/internal/e2e => /repo/internal/e2e
+	go.opentelemetry.io/collector/internal/fanoutconsumer => /repo/internal/fanoutconsumer
+	go.opentelemetry.io/collector/internal/memorylimiter => /repo/internal/memorylimiter
+	go.opentelemetry.io/collector/internal/sharedcomponent => /repo/internal/sharedcomponent
+	go.opentelemetry.io/collector/internal/telemetry => /repo/internal/telemetry
+	go.opentelemetry.io/collector/internal/tools => /repo/internal/tools
+	go.opentelemetry.io/collector/otelcol => /repo/otelcol
+	go.opentelemetry.io/collector/otelcol/otelcoltest => /repo/otelcol/otelcoltest
+	go.opentelemetry.io/collector/pdata => /repo/pdata
+	go.opentelemetry.io/collector/pdata/pprofile => /repo/pdata/pprofile
+	go.opentelemetry.io/collector/pipeline => /repo/pipeline
+	go.opentelemetry.io/collector/pipeline/xpipeline => /repo/pipeline/xpipeline
+	go.opentelemetry.io/collector/processor => /repo/processor
+	go.opentelemetry.io/collector/processor/batchprocessor => /repo/processor/batchprocessor
+	go.opentelemetry.io/collector/processor/memorylimiterprocessor => /repo/processor/memorylimiterprocessor
+	go.opentelemetry.io/collector/processor/processorhelper => /repo/processor/processorhelper
+	go.opentelemetry.io/collector/processor/processorhelper/xprocessorhelper => /repo/processor/processorhelper/xprocessorhelper
+	go.opentelemetry.io/collector/processor/processortest => /repo/processor/processortest
+	go.opentelemetry.io/collector/processor/xprocessor => /repo/processor/xprocessor
+	go.opentelemetry.io/collector/receiver => /repo/receiver
+	go.opentelemetry.io/collector/receiver/nopreceiver => /repo/receiver/nopreceiver
+	go.opentelemetry.io/collector/receiver/otlpreceiver => /repo/receiver/otlpreceiver
+	go.opentelemetry.io/collector/receiver/receiverhelper => /repo/receiver/receiverhelper
+	go.opentelemetry.io/collector/receiver/receivertest => /repo/receiver/receivertest
+	go.opentelemetry.io/collector/receiver/xreceiver => /repo/receiver/xreceiver
+	go.opentelemetry.io/collector/scraper => /repo/scraper
+	go.opentelemetry.io/collector/scraper/scraperhelper => /repo/scraper/scraperhelper
+	go.opentelemetry.io/collector/scraper/scrapertest => /repo/scraper/scrapertest
+	go.opentelemetry.io/collector/semconv => /repo/semconv
+	go.opentelemetry.io/collector/service => /repo/service
+	go.opentelemetry.io/collector/service/hostcapabilities => /repo/service/hostcapabilities
 )
 
-replace go.opentelemetry.io/collector/pdata/testdata => /tmp/wt-C20/pdata/testdata
+replace go.opentelemetry.io/collector/pdata/testdata => /repo/pdata/testdata
